@@ -13,7 +13,7 @@ import (
 	"verifh/lib"
 )
 
-const header = "From GL Require Import Common.Bytes Dbg.Lines Dbg.Layout Dbg.Scope Dbg.DbgLocals Dbg.DbgCases.\nFrom Coq Require Import String."
+const header = "From GL Require Import Common.Bytes Dbg.Lines Dbg.Layout Dbg.Scope Dbg.DbgLocals Dbg.DbgCases.\nFrom Coq Require Import String Uint63."
 
 type input struct {
 	Kind string `json:"kind"` // gen | corpus
@@ -147,6 +147,44 @@ func coqInts(xs []int) string {
 	return "[" + strings.Join(it, ";") + "]"
 }
 
+// pack7 prints a byte string as primitive 63-bit integers, 7 bytes each (Lines.unpack).
+func pack7(b []byte) string {
+	var sb strings.Builder
+	sb.WriteString("([")
+	for i := 0; i < len(b); i += 7 {
+		if i > 0 {
+			sb.WriteByte(';')
+		}
+		var chunk [7]byte
+		copy(chunk[:], b[i:])
+		sb.WriteString("0x" + hex.EncodeToString(chunk[:]))
+	}
+	sb.WriteString("])%uint63")
+	return sb.String()
+}
+
+func packSpans(ps [][2]int) string {
+	it := make([]string, len(ps))
+	for i, p := range ps {
+		if p[1] >= 65536 {
+			panic("token too long")
+		}
+		it[i] = strconv.Itoa(p[0]*65536 + p[1])
+	}
+	return "([" + strings.Join(it, ";") + "])%uint63"
+}
+
+func packInts(xs []int) string {
+	it := make([]string, len(xs))
+	for i, x := range xs {
+		if x < 0 {
+			x = 0
+		}
+		it[i] = strconv.Itoa(x)
+	}
+	return "([" + strings.Join(it, ";") + "])%uint63"
+}
+
 type layReport struct {
 	Style  string `json:"style"`
 	Source string `json:"source"`
@@ -230,9 +268,6 @@ func runCase(w *lib.Writer, in input, g *Generated, lays []Layout) {
 				}
 			}
 			lines = append(lines, v)
-			if l.Src.Kind == "ldef" && err == nil && len(lex) == len(p.Toks) && lex[l.SpecTok()] != lex[l.ImplTok()] {
-				kf["C17-3"] = true
-			}
 		}
 		if first == nil {
 			first = lines
@@ -256,8 +291,8 @@ func runCase(w *lib.Writer, in input, g *Generated, lays []Layout) {
 		for _, u := range gg.upsets {
 			usets = append(usets, fmt.Sprintf("(%s, %s)", coqOptName(res.SetRet[u.At]), coqObsBindings(res.Upvals[key3{u.At, 1, 1}])))
 		}
-		layTerms = append(layTerms, fmt.Sprintf("(LayObs %q%%string %s %s %s %s %s %s %s)",
-			hex.EncodeToString(src), coqPairs(spans), coqInts(lex), coqInts(lines),
+		layTerms = append(layTerms, fmt.Sprintf("(LayObs %d %s %s %s %s %s %s %s %s)",
+			len(src), pack7(src), packSpans(spans), packInts(lex), coqInts(lines),
 			lib.CoqList(locs), lib.CoqList(sets), lib.CoqList(ups), lib.CoqList(usets)))
 		rep := layReport{Style: lay.Style, Lines: lines}
 		if len(reports) == 0 {
@@ -278,7 +313,7 @@ func runCase(w *lib.Writer, in input, g *Generated, lays []Layout) {
 		sds = append(sds, fmt.Sprintf("(SDesc %d %d)", g.FnIdx[s.Fn()], s.Pt))
 	}
 	for _, s := range gg.sets {
-		stds = append(stds, fmt.Sprintf("(SetDesc %d %d %d %d)", g.FnIdx[s.Fn()], s.Pt, s.Idx, s.Val))
+		stds = append(stds, fmt.Sprintf("(SetDesc %d %d %s %d)", g.FnIdx[s.Fn()], s.Pt, lib.CoqZ(int64(s.Idx)), s.Val))
 	}
 	for _, u := range gg.ups {
 		uds = append(uds, fmt.Sprintf("(UDesc %s)", coqBindings(u.Fn.Upvals)))
